@@ -21,6 +21,7 @@ import Pycdlib.Model.Hybrid
 import Pycdlib.Model.Tools
 import Pycdlib.Model.Atomic
 import Pycdlib.Model.Cache
+import Pycdlib.Model.Extents
 namespace Pycdlib
 
 def parseCps (s : String) : Option (List Nat) :=
@@ -151,6 +152,11 @@ def dispatchPure (toks : List String) : Option String :=
   | ["bit", pvd, fsec, olen, hx] => do
     let b ← ofHex hx
     pure (toHex ((Boot.bootInfoTable (← pvd.toNat?) (← fsec.toNat?) (← olen.toNat?) (b.map (·.toNat))).map fun n => UInt8.ofNat n))
+  | "addchild" :: toks => do
+    -- identifiers (ranks) of the records added one after the other with allow_duplicate; the tag is the position
+    let ids ← toks.mapM (·.toNat?)
+    let l := (ids.zipIdx).foldl (fun acc (p : Nat × Nat) => Extents.addChild acc { ident := p.1, tag := p.2, multi := false, cont := false }) []
+    pure (" ".intercalate (l.map fun r => s!"{r.ident}.{r.tag}.{if r.multi then 1 else 0}.{if r.cont then 1 else 0}"))
   | "cacherun" :: toks => do
     -- L<p> lookup, E<0|1>:<p>=<r>,... edit that sets the tree (clears or not), F forget everything
     let parseOp : String → Option Cache.Op := fun t =>
